@@ -24,7 +24,7 @@ RULE = ("families {daily current/legacy, billing, hourly} x baseline datasets (n
 ASSUMPTIONS = ["when several refusal reasons hold at once (e.g. disqualified and foreign timezone) any raised exception counts as refusal",
                "a model 'carries a disqualification' when model.disqualification is non-empty"]
 REQUIRED_REACH = {"event.fit": 24, "event.predict": 200, "gate.fit_refused": 6, "gate.fit_overridden": 6, "gate.predict_refused_dq": 10,
-                  "gate.predict_overridden": 10, "gate.predict_refused_foreign": 40, "gate.stored_model_events": 60, "gate.poor_fit_model": 2, "gate.poor_fit_rule_judged": 3, "gate.model_object_refitted": 6, "gate.subclass_related_foreign_type": 4, "gate.poor_fit_with_an_undefined_metric": 1, "gate.poor_fit_rule_judged_on_a_poor_fit_of_another_hourly_profile": 2,
+                  "gate.predict_overridden": 10, "gate.predict_refused_foreign": 40, "gate.stored_model_events": 60, "gate.poor_fit_model": 2, "gate.poor_fit_rule_judged": 3, "gate.model_object_refitted": 6, "gate.subclass_related_foreign_type": 4, "gate.poor_fit_with_an_undefined_metric": 1, "gate.reporting_data_with_an_unused_column": 4, "gate.poor_fit_rule_judged_on_a_poor_fit_of_another_hourly_profile": 2,
                   "gate.unfitted": 6, "stored.disqualification_kind:missing_monthly_temperature_data": 1, "stored.disqualification_kind:incorrect_number_of_total_days": 1}
 
 VIOL = []
@@ -206,6 +206,19 @@ def run_case(spec):
     }
     if fam.kind == "billing":
         inputs["daily-data-of-same-shape"] = (em.DailyReportingData(rep_df.copy(), is_electricity_data=True), True, "same")
+    if fam.kind == "hourly" and not fam.ghi:
+        # reporting data that carries a column the model does not use (irradiance for a model fitted without it): a notice, nothing else -
+        # every gate stays where it is
+        def with_ghi(z, start, days):
+            fr = fam.reporting_frame(rng, z, start, days)
+            g = FT.synth_hourly(tz=z, start=start, days=days, seed=rng, ghi=True)["ghi"]
+            return fam.reporting_data(fr.assign(ghi=g.values))
+        try:
+            inputs["own-reporting-carrying-an-unused-ghi-column"] = (with_ghi(tz, "2019-03-01", 30), False, "same")
+            inputs["own-reporting-carrying-an-unused-ghi-column-other-tz"] = (with_ghi(other_tz, "2019-03-01", 30), False, "other")
+            I.reach("gate.reporting_data_with_an_unused_column")
+        except Exception:
+            pass
     if fam.kind == "hourly":
         # the other hourly family's data object: same name, same shape, a foreign type
         cfam = FT.Family("caltrack")
